@@ -8,11 +8,12 @@ import numpy as np
 
 from gridrv import core
 from gridrv.monitors import atomgrid_c05 as mon
+from gridrv.monitors import roundtrip
 from gridrv.oracles import datafiles, presets_c05, sph
 
 PROP = "C05"
 TITLE = "An atomic grid is exactly the product of its radial grid and per-shell spheres"
-REQUIRED_HOOKS = ["AtomGrid.__init__", "AtomGrid.get_shell_grid", "AtomGrid.from_pruned", "AtomGrid.from_preset"]
+REQUIRED_HOOKS = ["AtomGrid.__init__", "AtomGrid.get_shell_grid", "AtomGrid.from_pruned", "AtomGrid.from_preset", "AtomGrid.clone"]
 REQUIRED_FAMILIES = ["identity", "pruned", "preset", "tables", "all-rows"]
 BUDGET = {"quick": 900, "thorough": 6000}
 TOL_FACT = 1e-9
@@ -30,6 +31,8 @@ RULE = (
     "factorisation of integrals of g(r) Y_lm for all l <= min(min degree, cap). family pruned: from_pruned with sector edges exactly on "
     "radial nodes / random, degrees or sizes. family preset: EVERY (preset, element) row of the 17 shipped tables (deterministic, "
     "both tiers); quick adds one rotating extra variant per row, thorough 5 more variants per row (other angular methods, other radial grids, nodes on/around sector edges, random radial grids). family all-rows: every supported (degree,size) row of the 4 methods used as a shell (thorough: all 450; quick: a rotating third of the rows below 6000 points). "
+    "Input class clones: in every family the built grid (non-zero centres, rotate != 0, every method, from_pruned and every preset route) is also passed through copy.copy / copy.deepcopy / pickle (default and protocol 2; kinds drawn by the case rng) and each clone goes through the same post-conditions as a fresh grid "
+    "(product identity with its own centre/radial grid/degrees/seed, shell grids via get_shell_grid), must equal the original bit for bit (arrays, index table, degrees, centre, seed, method, radial grid, shell grids, integrate) and cloning must leave the original unchanged; an exception while cloning is a library exception. "
     "A case is non-trivial when at least one grid was built and evaluated."
 )
 ASSUMPTIONS = [
@@ -382,6 +385,9 @@ def _run_identity(ctx, p):
         if not core.is_library_exception(exc):
             raise
 
+    # clones (copy / deepcopy / pickle) are still this atomic grid
+    mon.check_clones(ctx, at, roundtrip.pick(rng, 2), tag=subj, shells=[int(rng.integers(0, n))])
+
     # factorisation
     if True:
         check_factorisation(ctx, at, subj, 14 if ctx.tier == "quick" or rng.random() < 0.8 else 30)
@@ -430,6 +436,7 @@ def _run_pruned(ctx, p):
             at = AtomGrid.from_pruned(rgrid, radius, r_sectors, d if rng.random() < 0.5 else np.array(d), center=center, rotate=rotate, method=method)
         ctx.case_note("degrees", [int(x) for x in at.degrees][:12])
         ctx.case_note("distinct_degrees", len(set(int(x) for x in at.degrees)))
+        mon.check_clones(ctx, at, roundtrip.pick(rng, 1), tag=subj)
 
 
 def _preset_rgrid(rng, preset, z, variant):
@@ -499,6 +506,8 @@ def _run_preset(ctx, p, witness=False):
             at = AtomGrid.from_preset(np.int64(z) if (h >> 11) % 2 else z, preset, rgrid, center=center, **kw)
         ctx.case_note("size", int(at.size))
         ctx.case_note("n_shells", int(at.n_shells))
+        if v != 0 or (h >> 13) % 2 or witness:  # clones of preset-built grids (every route, every variant)
+            mon.check_clones(ctx, at, [roundtrip.KINDS[(h >> 15) % 4]], tag=f"{preset}:Z={z}")
     except Exception as exc:  # the post-condition on from_preset has recorded it (admissible call raised)
         if not core.is_library_exception(exc):
             raise
@@ -532,6 +541,7 @@ def _run_all_rows(ctx, p):
     ctx.check("resolved-degree", subj + ":exact-rows", sorted(int(d) for d in at.degrees) == sorted(int(d) for d, _ in rows), sig="row-request-not-reproduced")
     ctx.case_note("size", int(at.size))
     ctx.count("angular-rows-used-as-shells", n)
+    mon.check_clones(ctx, at, roundtrip.pick(rng, 1), tag=subj)
     for i in (0, n - 1):
         at.get_shell_grid(i)
         at.get_shell_grid(i, r_sq=False)
@@ -590,6 +600,7 @@ def _run_hostile(ctx, p):
                     for i in {0, n - 1}:
                         at.get_shell_grid(i)
                         at.get_shell_grid(i, r_sq=False)
+                    mon.check_clones(ctx, at, roundtrip.pick(rng, 1), tag=subj)
     # numpy-integer seed: __init__ admits it, the generator rejects it (recorded, not decided)
     rg = confs[0][1]
     try:
